@@ -340,7 +340,11 @@ func hostileMain(seed int64, n int, out string) error {
 		c.stop()
 		w.Write(hostileRec{K: "net-summary", Entry: proto + "-server", Desc: fmt.Sprintf("%d inputs", len(inputs)), BLen: len(inputs)})
 	}
-	fmt.Println(total, deaths)
+	ct, cd, err := hostileClientPhase(seed, rng, n, w)
+	if err != nil {
+		return err
+	}
+	fmt.Println(total+ct, deaths+cd)
 	return nil
 }
 
